@@ -60,6 +60,7 @@ type hist struct {
 	a     *authority.Assembly
 	vcs   *doubles.MemVCS
 	vcek  map[int64][]byte
+	cmds  *[]string
 }
 
 func (h *hist) root() (*x509.Certificate, string) {
@@ -85,7 +86,8 @@ func window(root, leaf *x509.Certificate) (time.Time, time.Time) {
 }
 
 func (h *hist) viol(rule, format string, a ...any) {
-	h.c.Violate(core.Violation{Kind: "oracle", Entry: "endorse pipeline", Site: rule, Gen: h.gname, Case: h.idx, Detail: fmt.Sprintf(format, a...)})
+	h.c.Violate(core.Violation{Kind: "oracle", Entry: "endorse pipeline", Site: rule, Gen: h.gname, Case: h.idx, Detail: fmt.Sprintf(format, a...),
+		Witness: map[string]any{"commands_so_far": append([]string(nil), *h.cmds...)}})
 }
 
 // checkFresh runs (a), (b), (c) on an endorsement just written.
@@ -313,6 +315,7 @@ func run(c *core.Ctx) {
 		}
 		var all []*issued
 		var cmds []string
+		h.cmds = &cmds
 		var lastSerial *big.Int
 		lastCN := "signingKeyCn"
 		if st := a.Observe(); st.PrimaryCert != nil {
@@ -344,7 +347,14 @@ func run(c *core.Ctx) {
 				}
 				cmds = append(cmds, fmt.Sprintf("rotate(now=%s serial=%v overwrite=%v) -> %v", now.Format("2006-01-02"), skc.SigningKeySerial, ropts.Overwrite, err))
 				if err != nil {
-					h.viol("fault-free-rotation-failed", "step %d: %v", step, err)
+					// a refusal to replace an existing certificate object (a default serial that collides with an earlier
+					// override) is legitimate; C03 is about histories of successful rotations. The caller drops the authority value.
+					a.DropLongLived()
+					if strings.Contains(err.Error(), "AlreadyExists") || strings.Contains(err.Error(), "overwrite") || strings.Contains(err.Error(), "exists") {
+						c.Count("rotation-refused-existing-object", 1)
+					} else {
+						h.viol("fault-free-rotation-failed", "step %d: %v", step, err)
+					}
 				}
 				h.recheck(all, step, "rotate")
 				continue
@@ -370,7 +380,7 @@ func run(c *core.Ctx) {
 				rnow := now
 				ef.Hook = func(seq int, name string) {
 					if seq == interleave {
-						_, rerr := a.Rotate(&doubles.FCtl{}, authority.Opts{}, &rotate.SigningKeyContext{SigningKeyCommonName: "signingKeyCn", Now: rnow})
+						_, rerr := a.Rotate(&doubles.FCtl{}, authority.Opts{Overwrite: true}, &rotate.SigningKeyContext{SigningKeyCommonName: "signingKeyCn", Now: rnow})
 						cmds = append(cmds, fmt.Sprintf("  (rotation interleaved before endorse call %d %s -> %v)", seq, name, rerr))
 					}
 				}
